@@ -35,6 +35,13 @@ DEVS = {
     "crash.grpc_message_empty_dsl": (["Service", "Message"], 2, 1, "tiny"),
     "crash.grpc_message_attr_not_in_payload": (["Service", "Message", "Attribute"], 3, 1, "min"),
     "crash.body_empty_dsl": (["Service", "Body"], 2, 1, "min"),
+    "crash.base_cycle_tag_lookup": (["Type", "Extend", "Service", "Method"], 4, 0, "tiny", "simulate"),
+    "crash.meta_without_value": (["Type", "Meta"], 2, 0, "tiny"),
+    "crash.api_grpc_error_response": (["API", "GRPC", "Response"], 3, 0, "tiny"),
+    "crash.grpc_response_message_empty_dsl": (["API", "GRPC", "Response", "Message"], 4, 0, "tiny"),
+    "crash.enum_default_uncomparable": (["Type", "Attribute", "Enum", "Default"], 4, 0, "tiny", "simulate"),
+    "crash.extend_cycle_through_attribute": (["Type", "Attribute", "Extend"], 3, 0, "tiny"),
+    "accept.scope": (["Service", "Method", "Security", "Scope"], 4, 0, "tiny"),
     "accept.body_attribute": (["Service", "Method", "HTTP", "Body", "Attribute"], 5, 0, "min", "simulate"),
     "accept.response_tag": (["Service", "Method", "HTTP", "Response", "Tag"], 5, 0, "min", "simulate"),
     "accept.request_mapping": (["Service", "Method", "HTTP", "Param"], 4, 0, "tiny"),
@@ -94,7 +101,9 @@ def generate(ctx, quick):
              ("gen/Gen_DSLProgram_doc.cfg", nsim[1], "Gen simulate documented shapes"),
              ("gen/Gen_DSLProgram_refs.cfg", nsim[2], "Gen simulate reference-rich")]
     # focused walks: a fixed spine (one service, method, transport block, payload/result) and a handful of functions around one kind of reference
-    for name in ("map", "err", "body", "tag", "grpc", "view"):
+    # (sec: security requirements with several scopes; rec / rech: user types that reach themselves through attributes, arrays, maps and
+    # Extend, used by a method with a gRPC / an HTTP transport)
+    for name in ("map", "err", "body", "tag", "grpc", "view", "sec", "rec", "rech"):
         runs.append(("gen/Gen_DSLProgram_%s.cfg" % name, 100 if quick else 1000, "Gen simulate focused " + name))
 
     def one(r):
@@ -171,6 +180,9 @@ def report(ctx, host, suspects, known):
                 "original_program": l["prog"], "spec_reading": {"dangling": c["dangling"], "triggers": c["triggers"]}, "occurrences": n,
                 "stack": (res.get("stack") or "")[:2500]}
         text = "%s on\n%s" % (describe(res), cp.render(m))
+        if res["outcome"] in ("panic", "timeout") and c["triggers"]:
+            # the crash classes of DSLProgram.tla the minimal program falls in (a repaired defect that returns is recognisable by its name)
+            text = "[classes: %s] %s" % (", ".join(sorted(c["triggers"])), text)
         if res["outcome"] in ("panic", "timeout"):
             cand = [d for d in sorted(c["triggers"]) if d in known]
             key = cand[0] if cand else "C12/%s/%s/%s" % (res["outcome"], res.get("stage") or "-", skey)
